@@ -18,14 +18,16 @@ META = {
             "iff one entry alone ignores it: no other entry - a directory sorting between an ignored directory and "
             "its files, a nested one, another order - changes the verdict; a sorted predecessor lookup is refuted); Go's path.Match and filepath.Match are modelled in full "
             "(classes, escapes, multi-byte runes, ErrBadPattern; total, sound for the declarative reading, '*'/'?' "
-            "never match '/', '?' takes one rune), filepath.Glob level by level with its error paths, and source "
+            "never match '/', '?' takes one rune; complete for class-free patterns on names of single-byte runes, "
+            "with the two real incompleteness cases - a class taking the '/', '??' taking a wide rune - as "
+            "refutations confirmed against the toolchain's path.Match), filepath.Glob level by level with its error paths, and source "
             "trees with symbolic links (the recursive listing never follows one; its members are characterised entry "
             "by entry, and a non-directory entry of any name - a '.git' file or link - never prunes its siblings).  The model is tied to the code by exhaustive small-string "
             "and generated differential runs evaluated inside Coq, and by translator obligations on the "
             "source text of the resolution functions, the exclusion lists and the table of resolver calls.",
     "note": "Trusted: Coq kernel + vm_compute; translator gen/caco_names.go; harness and caco3/verif_names.go shim; "
             "path.Match/filepath.Match/filepath.Glob modelled after the Go 1.23 sources (completeness of the greedy "
-            "chunk loop is exercised, not proved); file system walk order not modelled; docker-backed rules (which "
+            "chunk loop is proved for patterns without classes on single-byte-rune names and refuted in general); file system walk order not modelled; docker-backed rules (which "
             "follow file symlinks when streaming inputs) not run; open finding: selections pass through linked "
             "directories; no axioms.",
     "technique": "Coq proof (stack invariant of Clean, induction over segments) + go/ast translation of constants "
